@@ -14,6 +14,10 @@ for M in "$@"; do
   OWN=$(basename $(dirname $M))
   if [ "${MUT_MODE:-full}" = "own" ]; then
     [ -f $M/eval_own.json ] || MUT_OUT=eval_own.json MUT_REPO=$WT MUT_VERIF=$V python3 /verif/tools/mutant_eval.py $M $OWN 2>&1 | tail -2
+  elif [ "${MUT_MODE:-full}" = "ownconfirm" ]; then
+    [ -f $M/eval_own.json ] || MUT_OUT=eval_own.json MUT_REPO=$WT MUT_VERIF=$V python3 /verif/tools/mutant_eval.py $M $OWN 2>&1 | tail -2
+    git -C $WT checkout -q -- . ; git -C $WT clean -fdq
+    [ -f $M/confirm.json ] || /verif/tools/mutant_confirm.sh $M $WT 2>&1 | tail -1
   elif [ "${MUT_MODE:-full}" = "confirm" ]; then
     [ -f $M/confirm.json ] || /verif/tools/mutant_confirm.sh $M $WT 2>&1 | tail -1
   else
